@@ -1,1 +1,667 @@
 // verification harness (compiled into ntp-proto/src/keyset.rs under cfg(all(test, pendulum_project_ntpd_rs_verif)))
+// Harness for spec/KeySet.tla: drives the real `KeySetProvider` / `KeySet` and a real key file with the abstract
+// actions of the specification (Rotate / Issue / Decode / Open / Write / Close / Crash / Restart / faults) and
+//   * mode "replay": compares state projection and outputs with the specification after every step of TLC walks;
+//   * mode "record": runs seeded random sessions (real 2^32 wrap-around, longer histories) logged for Trace_KeySet.
+// Key material is projected to key identities (first sight order = the specification's `next` counter).
+// The start of the daemon (load, falling back to fresh keys) and the open of the store path are the few lines of
+// ntpd/src/daemon/nts_key_provider.rs, repeated here with the open flags / mode *observed* on the real task by
+// harness/ntpd/nts_key_provider.rs (job cfg "trunc", "mode").
+#![allow(clippy::all, dead_code)]
+
+use super::*;
+use serde_json::{Value, json};
+use std::io::{Seek, SeekFrom};
+use std::os::unix::fs::{OpenOptionsExt, PermissionsExt};
+
+#[path = "/verif/harness/common/util.rs"]
+mod util;
+use util::Rng;
+
+const MAXV: i64 = 1000;
+const CORRUPT_ID: i64 = 500;
+
+struct Cfg {
+    history: usize,
+    m: u64,
+    init_offset: u32,
+    init_keys: usize,
+    trunc: bool,
+    mode: u32,
+    path: String,
+    all_bits: bool,
+}
+
+impl Cfg {
+    fn from(v: &Value, path: String) -> Self {
+        let m = v["M"].as_u64().unwrap();
+        let io = v["InitOffset"].as_u64().unwrap();
+        Cfg {
+            history: v["History"].as_u64().unwrap() as usize,
+            m,
+            // the real counter starts just below 2^32 so that it wraps where the model wraps
+            init_offset: (0u32).wrapping_sub((m - io) as u32),
+            init_keys: v["InitKeys"].as_u64().unwrap() as usize,
+            trunc: v["trunc"].as_bool().unwrap(),
+            mode: v["mode"].as_u64().unwrap() as u32,
+            path,
+            all_bits: v["all_bits"].as_bool().unwrap_or(false),
+        }
+    }
+}
+
+#[derive(Clone, PartialEq, Debug)]
+struct Payload {
+    alg: u16,
+    s2c: Vec<u8>,
+    c2s: Vec<u8>,
+}
+
+fn cookie_of(p: &Payload) -> DecodedServerCookie {
+    if p.alg == 15 {
+        DecodedServerCookie {
+            algorithm: AeadAlgorithm::AeadAesSivCmac256,
+            s2c: Box::new(AesSivCmac256::try_from(&p.s2c[..]).unwrap()),
+            c2s: Box::new(AesSivCmac256::try_from(&p.c2s[..]).unwrap()),
+        }
+    } else {
+        DecodedServerCookie {
+            algorithm: AeadAlgorithm::AeadAesSivCmac512,
+            s2c: Box::new(AesSivCmac512::try_from(p.s2c.iter()).unwrap()),
+            c2s: Box::new(AesSivCmac512::try_from(p.c2s.iter()).unwrap()),
+        }
+    }
+}
+
+fn payload_of(d: &DecodedServerCookie) -> Payload {
+    Payload { alg: u16::from(d.algorithm), s2c: d.s2c.key_bytes().to_vec(), c2s: d.c2s.key_bytes().to_vec() }
+}
+
+fn random_payload(rng: &mut Rng) -> Payload {
+    if rng.chance(1, 2) {
+        Payload { alg: 15, s2c: rng.bytes(32), c2s: rng.bytes(32) }
+    } else {
+        Payload { alg: 17, s2c: rng.bytes(64), c2s: rng.bytes(64) }
+    }
+}
+
+type RealSet = (Vec<Vec<u8>>, u32, u32);
+
+fn set_of(p: &KeySetProvider) -> RealSet {
+    let ks = p.get();
+    (ks.keys.iter().map(|k| k.key_bytes().to_vec()).collect(), ks.id_offset, ks.primary)
+}
+
+/// Can this key set issue a cookie and decode it again (no panic, same content)?
+fn usable(p: &KeySetProvider, rng: &mut Rng) -> bool {
+    let pl = random_payload(rng);
+    let ks = p.get();
+    matches!(util::catch(|| {
+        let c = ks.encode_cookie(&cookie_of(&pl));
+        ks.decode_cookie(&c).map(|d| payload_of(&d) == pl).unwrap_or(false)
+    }), Ok(true))
+}
+
+/// Records the write calls of `store`: one token per write_all.
+struct Recorder(Vec<Vec<u8>>);
+impl Write for Recorder {
+    fn write(&mut self, buf: &[u8]) -> std::io::Result<usize> {
+        self.0.push(buf.to_vec());
+        Ok(buf.len())
+    }
+    fn flush(&mut self) -> std::io::Result<()> {
+        Ok(())
+    }
+}
+
+fn tok_size(idx: usize) -> usize {
+    match idx {
+        0 => 8,
+        1 | 2 | 3 => 4,
+        _ => 64,
+    }
+}
+fn tok_start(idx: usize) -> usize {
+    (0..idx).map(tok_size).sum()
+}
+
+struct Sut {
+    cfg: Cfg,
+    rng: Rng,
+    provider: Option<KeySetProvider>,
+    ids: Vec<(Vec<u8>, i64)>,
+    next_fresh: i64,
+    cookies: Vec<(Vec<u8>, Payload)>,
+    file: Option<std::fs::File>,
+    stream: Vec<Vec<u8>>,
+    fd: usize,
+    usable: bool,
+}
+
+impl Sut {
+    fn new(cfg: Cfg, seed: u64) -> Self {
+        let mut s = Sut {
+            cfg,
+            rng: Rng::new(seed),
+            provider: None,
+            ids: vec![],
+            next_fresh: 0,
+            cookies: vec![],
+            file: None,
+            stream: vec![],
+            fd: 0,
+            usable: true,
+        };
+        let _ = std::fs::remove_file(&s.cfg.path);
+        if s.cfg.init_keys > 0 {
+            // a key file left by an earlier run of the daemon (written by the real `store` of a crafted set)
+            let n = s.cfg.init_keys;
+            let keys: Vec<Vec<u8>> = (0..n).map(|_| s.rng.bytes(64)).collect();
+            for (i, k) in keys.iter().enumerate() {
+                s.ids.push((k.clone(), 100 + i as i64));
+            }
+            let p = KeySetProvider {
+                current: Arc::new(KeySet {
+                    keys: keys.iter().map(|k| AesSivCmac512::try_from(k.iter()).unwrap()).collect(),
+                    id_offset: s.cfg.init_offset,
+                    primary: n as u32 - 1,
+                }),
+                history: s.cfg.history,
+            };
+            let mut f = std::fs::OpenOptions::new().create(true).truncate(true).write(true).mode(0o600).open(&s.cfg.path).unwrap();
+            p.store(&mut f).unwrap();
+        }
+        s
+    }
+
+    fn id_of(&mut self, bytes: &[u8], assign: bool) -> i64 {
+        if let Some((_, id)) = self.ids.iter().find(|(b, _)| b == bytes) {
+            return *id;
+        }
+        if assign {
+            let id = self.next_fresh;
+            self.next_fresh += 1;
+            self.ids.push((bytes.to_vec(), id));
+            id
+        } else {
+            -99
+        }
+    }
+
+    fn hv(&self, x: u32) -> i64 {
+        if x == u32::MAX { MAXV } else { (x as i64).min(MAXV - 1) }
+    }
+
+    fn tokens(&mut self, data: &[u8]) -> Vec<Value> {
+        let mut out = vec![];
+        let mut pos = 0;
+        let mut idx = 0;
+        while pos < data.len() {
+            let size = tok_size(idx);
+            if pos + size <= data.len() {
+                let b = &data[pos..pos + size];
+                let v = match idx {
+                    0 => 0,
+                    1 => (u32::from_be_bytes(b.try_into().unwrap()) as u64 % self.cfg.m) as i64,
+                    2 | 3 => self.hv(u32::from_be_bytes(b.try_into().unwrap())),
+                    _ => self.id_of(b, false),
+                };
+                out.push(json!({"v": v, "part": false}));
+            } else {
+                out.push(json!({"v": -7, "part": true}));
+            }
+            pos += size;
+            idx += 1;
+        }
+        out
+    }
+
+    fn disk(&mut self) -> Value {
+        match std::fs::metadata(&self.cfg.path) {
+            Err(_) => json!({"exists": false, "mode": 0, "toks": []}),
+            Ok(meta) => {
+                let data = std::fs::read(&self.cfg.path).unwrap();
+                let toks = self.tokens(&data);
+                json!({"exists": true, "mode": meta.permissions().mode() & 0o7777, "toks": toks})
+            }
+        }
+    }
+
+    fn state(&mut self) -> Value {
+        let (keys, offset, primary) = match &self.provider {
+            Some(p) => set_of(p),
+            None => (vec![], 0, 0),
+        };
+        let ids: Vec<i64> = keys.iter().map(|k| self.id_of(k, true)).collect();
+        let disk = self.disk();
+        json!({"up": self.provider.is_some(), "memobs": true, "keys": ids, "offset": offset as u64 % self.cfg.m, "offset32": offset,
+               "primary": self.hv(primary), "disk": disk, "usable": self.usable, "ncookies": self.cookies.len()})
+    }
+
+    /// What a start of the daemon would do with the file as it is now: "err" (fresh keys), "unusable" (loads a
+    /// set that cannot issue/decode), "same"/"other" relative to `expect`, or "ok" when there is nothing to compare.
+    fn probe(&mut self, expect: Option<&RealSet>) -> String {
+        let path = self.cfg.path.clone();
+        let history = self.cfg.history;
+        let r = util::catch(|| {
+            let mut input = std::fs::File::open(&path).ok()?;
+            KeySetProvider::load(&mut input, history).ok().map(|x| x.0)
+        });
+        match r {
+            Err(_) => "panic".into(),
+            Ok(None) => "err".into(),
+            Ok(Some(p)) => {
+                if !usable(&p, &mut self.rng) {
+                    "unusable".into()
+                } else {
+                    match expect {
+                        None => "ok".into(),
+                        Some(e) => if &set_of(&p) == e { "same".into() } else { "other".into() },
+                    }
+                }
+            }
+        }
+    }
+
+    fn agree(views: Vec<String>) -> String {
+        let mut u = views.clone();
+        u.sort();
+        u.dedup();
+        if u.len() == 1 { u.pop().unwrap() } else { u.join("|") }
+    }
+
+    fn materialise(&self, data: &[u8]) {
+        // rewrite the content of the existing file, keeping its mode
+        let mut f = std::fs::OpenOptions::new().write(true).truncate(true).open(&self.cfg.path).unwrap();
+        f.write_all(data).unwrap();
+    }
+
+    fn out(res: &str, w: i64, k: i64, load: &str) -> Value {
+        json!({"res": res, "w": w, "k": k, "load": load})
+    }
+
+    fn apply(&mut self, act: &Value) -> (Value, Value, Option<String>) {
+        let r = util::catch(|| self.apply_inner(act));
+        let (out, panic) = match r {
+            Ok(Ok(o)) => (o, None),
+            Ok(Err(p)) => (Self::out("-", -1, -1, "-"), Some(p)),
+            Err(p) => (Self::out("-", -1, -1, "-"), Some(format!("harness: {p}"))),
+        };
+        let st = self.state();
+        (st, out, panic)
+    }
+
+    fn apply_inner(&mut self, act: &Value) -> Result<Value, String> {
+        let t = act["t"].as_str().unwrap();
+        match t {
+            "Rotate" => {
+                let p = self.provider.as_mut().unwrap();
+                util::catch(|| p.rotate())?;
+                let p = self.provider.as_ref().unwrap();
+                self.usable = usable(p, &mut self.rng);
+                Ok(Self::out("-", -1, -1, "-"))
+            }
+            "Issue" => {
+                let pl = random_payload(&mut self.rng);
+                let ks = self.provider.as_ref().unwrap().get();
+                let c = util::catch(|| ks.encode_cookie(&cookie_of(&pl)))?;
+                let w = (u32::from_be_bytes(c[0..4].try_into().unwrap()) as u64 % self.cfg.m) as i64;
+                // which key made it: the one that opens it
+                let mut k = -99;
+                let ctlen = u16::from_be_bytes([c[4], c[5]]) as usize;
+                for (bytes, id) in &self.ids {
+                    let key = AesSivCmac512::try_from(bytes.iter()).unwrap();
+                    if key.decrypt(&c[6..22], &c[22..22 + ctlen], &[]).is_ok() {
+                        k = *id;
+                    }
+                }
+                self.cookies.push((c, pl));
+                Ok(Self::out("cookie", w, k, "-"))
+            }
+            "Decode" => {
+                let (c, pl) = self.cookies[act["c"].as_u64().unwrap() as usize - 1].clone();
+                let ks = self.provider.as_ref().unwrap().get();
+                let var = act["var"].as_str().unwrap();
+                let mut tries: Vec<Vec<u8>> = vec![];
+                match var {
+                    "intact" => tries.push(c.clone()),
+                    "padded" => {
+                        for n in [1usize, 2, 3, 16] {
+                            let mut x = c.clone();
+                            x.extend(self.rng.bytes(n));
+                            tries.push(x);
+                        }
+                    }
+                    "cut" => {
+                        for n in [1usize, 2, 15, 16, 17, c.len() - 22] {
+                            tries.push(c[..c.len() - n].to_vec());
+                        }
+                    }
+                    "short" => {
+                        for n in [0usize, 1, 5, 6, 21] {
+                            tries.push(c[..n].to_vec());
+                        }
+                    }
+                    "tamper" => {
+                        // EVERY byte of the cookie (all are inside its declared length)
+                        for i in 0..c.len() {
+                            if self.cfg.all_bits {
+                                for b in 0..8 {
+                                    let mut x = c.clone();
+                                    x[i] ^= 1 << b;
+                                    tries.push(x);
+                                }
+                            } else {
+                                let mut x = c.clone();
+                                x[i] ^= 1 + self.rng.below(255) as u8;
+                                tries.push(x);
+                            }
+                        }
+                    }
+                    "foreign" => {
+                        let wire = u32::from_be_bytes(c[0..4].try_into().unwrap());
+                        let fk = self.rng.bytes(64);
+                        let foreign = KeySet { keys: vec![AesSivCmac512::try_from(fk.iter()).unwrap()], id_offset: wire, primary: 0 };
+                        tries.push(foreign.encode_cookie(&cookie_of(&pl)));
+                        tries.push(foreign.encode_cookie(&cookie_of(&random_payload(&mut self.rng))));
+                    }
+                    v => panic!("unknown variant {v}"),
+                }
+                let mut views = vec![];
+                for x in &tries {
+                    let r = util::catch(|| ks.decode_cookie(x))?;
+                    views.push(match r {
+                        Err(_) => "err".to_string(),
+                        Ok(d) => if payload_of(&d) == pl { "ok".to_string() } else { "wrong".to_string() },
+                    });
+                }
+                Ok(Self::out(&Self::agree(views), -1, -1, "-"))
+            }
+            "Open" => {
+                let existed = std::fs::metadata(&self.cfg.path).is_ok();
+                let f = std::fs::OpenOptions::new().create(true).truncate(self.cfg.trunc).write(true).mode(self.cfg.mode)
+                    .open(&self.cfg.path).map_err(|e| format!("open: {e}"))?;
+                self.file = Some(f);
+                let p = self.provider.as_ref().unwrap();
+                let mut rec = Recorder(vec![]);
+                util::catch(|| p.store(&mut rec))?.map_err(|e| format!("store: {e}"))?;
+                self.stream = rec.0;
+                self.fd = 1;
+                let set = set_of(self.provider.as_ref().unwrap());
+                let load = self.probe(Some(&set));
+                Ok(Self::out(if existed { "opened" } else { "created" }, -1, -1, &load))
+            }
+            "Write" => {
+                let tok = self.stream.get(self.fd - 1).cloned().unwrap_or_default();
+                self.file.as_mut().unwrap().write_all(&tok).unwrap();
+                self.fd += 1;
+                let set = set_of(self.provider.as_ref().unwrap());
+                let load = self.probe(Some(&set));
+                Ok(Self::out("-", -1, -1, &load))
+            }
+            "Close" => {
+                // a `store` that issues more writes than the specification's token sequence shows up here
+                while self.fd - 1 < self.stream.len() {
+                    let tok = self.stream[self.fd - 1].clone();
+                    self.file.as_mut().unwrap().write_all(&tok).unwrap();
+                    self.fd += 1;
+                }
+                self.file = None;
+                self.fd = 0;
+                let set = set_of(self.provider.as_ref().unwrap());
+                let load = self.probe(Some(&set));
+                Ok(Self::out("-", -1, -1, &load))
+            }
+            "Crash" => {
+                let torn = act["torn"].as_bool().unwrap();
+                let set = set_of(self.provider.as_ref().unwrap());
+                let mut load = "-".to_string();
+                if self.fd > 0 {
+                    let pos = self.file.as_mut().unwrap().seek(SeekFrom::Current(0)).unwrap() as usize;
+                    self.file = None;
+                    if torn {
+                        // EVERY byte-level crash point inside the token being written
+                        let tok = self.stream.get(self.fd - 1).cloned().unwrap_or_default();
+                        let base = std::fs::read(&self.cfg.path).unwrap();
+                        let mut views = vec![];
+                        let keep = 1 + self.rng.below(tok.len() as u64 - 1) as usize;
+                        let mut kept = base.clone();
+                        for p in 1..tok.len() {
+                            let mut data = base.clone();
+                            if data.len() < pos + p {
+                                data.resize(pos + p, 0);
+                            }
+                            data[pos..pos + p].copy_from_slice(&tok[..p]);
+                            self.materialise(&data);
+                            views.push(self.probe(Some(&set)));
+                            if p == keep {
+                                kept = data;
+                            }
+                        }
+                        self.materialise(&kept);
+                        load = Self::agree(views);
+                    } else {
+                        load = self.probe(Some(&set));
+                    }
+                }
+                self.file = None;
+                self.fd = 0;
+                self.provider = None;
+                Ok(Self::out("-", -1, -1, &load))
+            }
+            "Restart" => {
+                // nts_key_provider.rs spawn(): File::open + KeySetProvider::load, else KeySetProvider::new
+                let path = self.cfg.path.clone();
+                let history = self.cfg.history;
+                let r = util::catch(|| {
+                    let mut input = std::fs::File::open(&path).ok()?;
+                    KeySetProvider::load(&mut input, history).ok().map(|x| x.0)
+                })?;
+                let (p, res) = match r {
+                    Some(p) => (p, "loaded"),
+                    None => (KeySetProvider::new(history), "fresh"),
+                };
+                self.usable = usable(&p, &mut self.rng);
+                self.provider = Some(p);
+                Ok(Self::out(res, -1, -1, if res == "loaded" { "ok" } else { "err" }))
+            }
+            "Truncate" => {
+                let n = act["n"].as_u64().unwrap() as usize;
+                let part = act["part"].as_bool().unwrap();
+                let data = std::fs::read(&self.cfg.path).unwrap();
+                let start = tok_start(n);
+                if !part {
+                    self.materialise(&data[..start]);
+                    let load = self.probe(None);
+                    return Ok(Self::out("-", -1, -1, &load));
+                }
+                let size = tok_size(n);
+                let keep = 1 + self.rng.below(size as u64 - 1) as usize;
+                let mut views = vec![];
+                for p in 1..size {
+                    self.materialise(&data[..start + p]);
+                    views.push(self.probe(None));
+                }
+                self.materialise(&data[..start + keep]);
+                Ok(Self::out("-", -1, -1, &Self::agree(views)))
+            }
+            "CorruptHeader" => {
+                let mut data = std::fs::read(&self.cfg.path).unwrap();
+                let f = act["f"].as_str().unwrap();
+                let pos = match f { "offset" => 8, "primary" => 12, _ => 16 };
+                let len_field = u32::from_be_bytes(data[16..20].try_into().unwrap());
+                let nkeys = ((data.len() - 20) / 64) as u32;
+                let reference = if f == "len" { nkeys } else { len_field };
+                let cur = u32::from_be_bytes(data[pos..pos + 4].try_into().unwrap());
+                let v: u32 = match act["cls"].as_str().unwrap() {
+                    "zero" => 0,
+                    "refm1" => reference.wrapping_sub(1),
+                    "ref" => reference,
+                    "refp1" => reference.wrapping_add(1),
+                    "max" => u32::MAX,
+                    "bump" => cur.wrapping_add(1),
+                    c => panic!("unknown class {c}"),
+                };
+                data[pos..pos + 4].copy_from_slice(&v.to_be_bytes());
+                self.materialise(&data);
+                let load = self.probe(None);
+                Ok(Self::out("-", -1, -1, &load))
+            }
+            "CorruptKey" => {
+                let i = act["i"].as_u64().unwrap() as usize;
+                let data = std::fs::read(&self.cfg.path).unwrap();
+                let start = tok_start(3 + i);
+                let keep = self.rng.below(64) as usize;
+                let mut kept = data.clone();
+                let mut views = vec![];
+                // EVERY byte of the key
+                for b in 0..64 {
+                    let mut x = data.clone();
+                    x[start + b] ^= 1 << self.rng.below(8);
+                    self.materialise(&x);
+                    views.push(self.probe(None));
+                    if b == keep {
+                        kept = x;
+                    }
+                }
+                self.materialise(&kept);
+                self.ids.push((kept[start..start + 64].to_vec(), CORRUPT_ID + i as i64));
+                Ok(Self::out("-", -1, -1, &Self::agree(views)))
+            }
+            t => panic!("unknown action {t}"),
+        }
+    }
+}
+
+fn toks_equal(e: &Value, o: &Value) -> bool {
+    let (e, o) = (e.as_array().unwrap(), o.as_array().unwrap());
+    e.len() == o.len()
+        && e.iter().zip(o).all(|(a, b)| a["part"] == b["part"] && (a["part"] == json!(true) || a["v"] == b["v"]))
+}
+
+/// Names of the observables that differ from the specification's expectation.
+fn compare(exp_post: &Value, exp_out: &Value, st: &Value, out: &Value, panic: &Option<String>) -> Vec<String> {
+    let mut d = vec![];
+    if panic.is_some() {
+        d.push("panic".to_string());
+        return d;
+    }
+    if exp_post["up"] != st["up"] {
+        d.push("up".into());
+    }
+    if exp_post["up"] == json!(true) {
+        for k in ["keys", "offset", "primary"] {
+            if exp_post[k] != st[k] {
+                d.push(k.to_string());
+            }
+        }
+        if st["usable"] != json!(true) {
+            d.push("usable".into());
+        }
+    }
+    let (ed, od) = (&exp_post["disk"], &st["disk"]);
+    if ed["exists"] != od["exists"] || (ed["exists"] == json!(true) && ed["mode"] != od["mode"]) || !toks_equal(&ed["toks"], &od["toks"]) {
+        d.push("disk".into());
+    }
+    for k in ["res", "w", "k", "load"] {
+        if exp_out[k] != out[k] {
+            d.push(format!("out.{k}"));
+        }
+    }
+    d
+}
+
+fn replay(job: &Value) {
+    let walks = util::read_ndjson(job["input"].as_str().unwrap());
+    let mut out = util::NdjsonOut::create(job["output"].as_str().unwrap());
+    let seed = job["seed"].as_u64().unwrap_or(0);
+    let dir = job["cfg"]["dir"].as_str().unwrap();
+    std::fs::create_dir_all(dir).unwrap();
+    for w in walks {
+        let id = w["id"].as_u64().unwrap_or(0);
+        let cfg = Cfg::from(&job["cfg"], format!("{dir}/keys_{id}.dat"));
+        let mut sut = Sut::new(cfg, seed ^ (id << 8));
+        let steps = w["walk"].as_array().unwrap();
+        let mut fail = Value::Null;
+        let mut run = 0;
+        for (n, st) in steps.iter().enumerate() {
+            let (obs_st, obs_out, panic) = sut.apply(&st["act"]);
+            run = n + 1;
+            let d = compare(&st["post"], &st["out"], &obs_st, &obs_out, &panic);
+            if !d.is_empty() {
+                fail = json!({"step": n, "fields": d, "observed": {"st": obs_st, "out": obs_out}, "panic": panic});
+                break;
+            }
+        }
+        let _ = std::fs::remove_file(&sut.cfg.path);
+        out.put(&json!({"id": w["id"], "steps_run": run, "fail": fail}));
+    }
+    out.finish();
+}
+
+/// Seeded random sessions far outside the bounded model (real 32-bit wrap, longer histories, many rotations).
+fn record(job: &Value) {
+    let mut out = util::NdjsonOut::create(job["output"].as_str().unwrap());
+    let seed = job["seed"].as_u64().unwrap_or(0);
+    let sessions = job["sessions"].as_u64().unwrap_or(10);
+    let steps = job["steps"].as_u64().unwrap_or(100);
+    let dir = job["dir"].as_str().unwrap();
+    std::fs::create_dir_all(dir).unwrap();
+    let mut rng = Rng::new(seed ^ 0x6b65);
+    for sess in 0..sessions {
+        let cfgv = &job["cfgs"][(sess as usize) % job["cfgs"].as_array().unwrap().len()];
+        let cfg = Cfg::from(cfgv, format!("{dir}/rec_{sess}.dat"));
+        let mut sut = Sut::new(cfg, seed.wrapping_add(sess * 7919));
+        out.put(&json!({"ev": "reset", "cfg": cfgv, "st": sut.state()}));
+        for _ in 0..steps {
+            if sut.next_fresh >= 90 {
+                break; // identities >= 100 are reserved for keys of a pre-existing file
+            }
+            let up = sut.provider.is_some();
+            let act = if !up {
+                json!({"t": "Restart"})
+            } else if sut.fd > 0 {
+                let ntok = 4 + set_of(sut.provider.as_ref().unwrap()).0.len();
+                if rng.chance(1, 12) {
+                    json!({"t": "Crash", "torn": sut.fd <= ntok && rng.chance(1, 2)})
+                } else if sut.fd <= ntok {
+                    json!({"t": "Write"})
+                } else {
+                    json!({"t": "Close"})
+                }
+            } else {
+                let r = rng.below(100);
+                if r < 25 {
+                    json!({"t": "Rotate"})
+                } else if r < 45 && sut.cookies.len() < 40 {
+                    json!({"t": "Issue"})
+                } else if r < 80 && !sut.cookies.is_empty() {
+                    let c = 1 + rng.below(sut.cookies.len() as u64);
+                    let var = *rng.pick(&["intact", "intact", "intact", "padded", "cut", "foreign", "short"]);
+                    json!({"t": "Decode", "c": c, "var": var})
+                } else if r < 95 {
+                    json!({"t": "Open"})
+                } else {
+                    json!({"t": "Crash", "torn": false})
+                }
+            };
+            let (st, o, panic) = sut.apply(&act);
+            out.put(&json!({"ev": "step", "act": act, "st": st, "out": o, "panic": panic.clone().unwrap_or_default()}));
+            if panic.is_some() {
+                break;
+            }
+        }
+        let _ = std::fs::remove_file(&sut.cfg.path);
+    }
+    out.finish();
+}
+
+#[test]
+fn verif_keyset() {
+    let job = util::job();
+    match job["mode"].as_str().unwrap() {
+        "replay" => replay(&job),
+        "record" => record(&job),
+        m => panic!("unknown mode {m}"),
+    }
+}
